@@ -396,6 +396,9 @@ class VerusUnit:
                 with open(cpath, "w") as f:
                     f.write(ctext)
                 cmd = list(base)
+                if "--rlimit" in cmd:            # the canary run sets its own (small) resource limit; the option may be given once only
+                    k_ = cmd.index("--rlimit")
+                    del cmd[k_:k_ + 2]
                 cmd[1] = os.path.basename(cpath)
                 # a canary only has to be *unprovable*: a small resource limit is enough (running out of it also counts)
                 cmd += ["--multiple-errors", "0", "--rlimit", "3"]
@@ -434,6 +437,9 @@ class VerusUnit:
     def _canary_bad(self, cmd, cmap, names, cerr):
         if True:
             hit = set()
+            if not [d for d in parse_diags(cerr) if d.get("level") == "error"]:
+                # no diagnostics at all: the verifier did not run (bad command line, crash) - a tool problem, not vacuity
+                return [], ["canary run produced no diagnostics: %s" % (cerr.strip().split("\n")[-1][:200] if cerr.strip() else "empty output")]
             try:
                 _t, cfns = fn_spans(open(os.path.join(self.outdir, cmd[1])).read())
             except OSError:
